@@ -545,6 +545,39 @@ DEFECTS = [
 ]
 
 
+DEFECT_INFO = {
+    'chunked-readline-overrun': ('a line longer than the stream limit (64 KiB) after a chunk\'s data or in the chunked trailer: '
+                                 'StreamReader.readline raises ValueError, chunked.py:93,117 do not convert it (read_chunk_header does)',
+                                 'C09-chunked-readline-overrun.diff'),
+    'chunked-trailer-strict-parse': ('a chunked trailer line without a colon: stream.py:364 fields.parse(trailer) is strict '
+                                     '-> ValueError("Field missing colon.")', 'C09-chunked-trailer-not-strict.diff'),
+    'ftp-reply-readline-overrun': ('an FTP reply line longer than the stream limit: ftp/stream.py:135 readline ValueError is not converted',
+                                   'C09-ftp-reply-readline-overrun.diff'),
+    'ftp-reply-two-final-lines': ('an FTP reply whose one line (bare CR inside) holds two "ddd " final lines: ftp/request.py:84 assert',
+                                  'C09-ftp-reply-two-final-lines.diff'),
+    'ftp-listing-msdos-short-line': ('a LIST line guessed as MS-DOS with fewer than 4 fields (e.g. "2012"): ls/listing.py:88 IndexError, '
+                                     'not in "except (ListingError, ValueError)"', 'C09-ftp-listing-msdos-short-line.diff'),
+    'ftp-parent-listing-unhandled': ('DESIGN finding 21: any protocol/network/server error while listing the parent directory of an FTP '
+                                     'file URL (processor/ftp.py:147) is outside "except REMOTE_ERRORS" and ends the crawl',
+                                     'C09-ftp-parent-listing-errors.diff'),
+    'ftp-pasv-port-overflow': ('a PASV reply naming numbers above 255 gives a port above 65535: socket connect raises OverflowError, '
+                               'which run_network_operation does not convert', 'C09-ftp-pasv-number-range.diff'),
+    'charset-non-text-codec': ('a charset label naming a non-text Python codec (hex, rot13, base64, zlib...; Content-Type or <meta>): '
+                               'string.py:104 bytes.decode raises LookupError inside detect_response_encoding, outside the scrapers\' try',
+                               'C09-charset-non-text-codec.diff'),
+    'last-modified-unparseable': ('Last-Modified that email.utils.parsedate cannot parse: writer.py:141 time.mktime(None) TypeError '
+                                  '(save_document is outside the try of _fetch_one)', 'C09-last-modified-unparseable.diff'),
+    'windows-filename-trailing-dot': ('DESIGN finding 22: --restrict-file-names windows and a URL or Content-Disposition name ending in '
+                                      '"." or " ": path.py:263 format(str, "02X") ValueError', 'C09-windows-filename-trailing-dot.diff'),
+    'sitemap-corrupt-gzip': ('--sitemaps and a sitemap that starts with the gzip magic but is corrupt/truncated: document/sitemap.py:66 '
+                             'GzipFile raises BadGzipFile(OSError) / EOFError, not caught by scraper/sitemap.py', 'C09-sitemap-corrupt-gzip.diff'),
+    'writer-makedirs-recursion': ('a URL path with about 1000 directory levels: os.makedirs recurses once per missing level -> RecursionError '
+                                  'from writer.py:121 (inside the try, but not a REMOTE error)', None),
+    'writer-oserror-ends-crawl': ('a URL path longer than PATH_MAX (or any other OSError of open/makedirs on a server-chosen name): OSError is '
+                                  'not in REMOTE_ERRORS; Application.run calls it expected and ends the crawl with exit status 3', None),
+}
+
+
 def escaped_kind(f):
     if f['pipe'] != 'none':
         return f['pipe']
@@ -631,7 +664,7 @@ def run(chk):
         gres = {w: f.result() for w, f in gfut.items()}
     for (sv, fx), res in zip(designs, dres):
         chk.design('ErrorFlow[SSLVerify=%s,Fixes=%s]' % (sv, 'as-found' if fx is fixes else 'all-proposed'), res,
-                   constants=dict(SSLVerify=sv, Fixes=list(fx), sites=65, kinds=31), expect_actions=EXPECT_ACTIONS)
+                   constants=dict(SSLVerify=sv, Fixes=list(fx), sites=64, kinds=31), expect_actions=EXPECT_ACTIONS)
     timing['design+generate'] = round(time.time() - t0, 1)
     faults, wires, cuts, docs = (gres[w][0] for w in ('fault', 'wire', 'cut', 'doc'))
     for w in gres:
@@ -647,16 +680,14 @@ def run(chk):
     faults_sel = select(faults, quick, rng, lambda c: c['provokable'] == 1, 60)
     # (b) quick: every class unsegmented + a sample of segmentations; cuts: every part boundary + sample
     wires_sel = select(wires, quick, rng, lambda c: c['seg'] == 'whole', 30)
-    seen_parts = set()
-
-    def cut_keep(c):
-        k = (c['cls'], c['part'])
-        if k in seen_parts:
-            return False
-        seen_parts.add(k)
-        return True
     cuts_sorted = sorted(cuts, key=lambda c: (c['cls'], c['pos']))
-    cuts_sel = select(cuts_sorted, quick, rng, cut_keep, 25)
+    first_of_part = set()
+    seen_parts = set()
+    for c in cuts_sorted:
+        if (c['cls'], c['part']) not in seen_parts:
+            seen_parts.add((c['cls'], c['part']))
+            first_of_part.add((c['cls'], c['pos']))
+    cuts_sel = select(cuts_sorted, quick, rng, lambda c: (c['cls'], c['pos']) in first_of_part, 25)
     # (c) documents: all of them in process
     docs_sel = docs if not quick else select(docs, True, rng, lambda c: len(c['toks']) <= 1, 1500)
     chk.extra['selected'] = dict(fault=len(faults_sel), wire=len(wires_sel), cut=len(cuts_sel), doc=len(docs_sel))
@@ -666,7 +697,7 @@ def run(chk):
                  (('h_connect', 'SSLCertError'), ('h_connect', 'SSLVerificationError'), ('r_connect', 'SSLCertError'),
                   ('f_connect', 'SSLCertError'), ('h_body_read', 'SSLVerificationError'), ('h_connect', 'OSError'),
                   ('fp_data_connect', 'SSLCertError'))]
-    e2e_cases = faults_sel + wires_sel + cuts_sel + ssl_cases
+    e2e_cases = wires_sel + cuts_sel + faults_sel + ssl_cases      # real-input witnesses first: they become the replay files
     jobs = [job_of(c) for c in e2e_cases]
     chunk = 150
     doc_chunks = [docs_sel[i:i + chunk] for i in range(0, len(docs_sel), chunk)]
@@ -744,6 +775,9 @@ def run(chk):
                     % (clause, case_label(c), 'HANG ' if f['hang'] else '',
                        ('exception reached Application.run: ' + f['pmsg']) if f['pipe'] != 'none' else 'no exception at Application.run',
                        f['target'], f['others'], f['final'], [(l[0], l[1]) for l in f['leaves']]))
+            if 'defect' in sig and sig['defect'] in DEFECT_INFO:
+                info = DEFECT_INFO[sig['defect']]
+                desc = '%s [%s] -- first case: %s' % (info[0], ('proposed fix: fixes_proposed/' + info[1]) if info[1] else 'no fix proposed', desc)
             chk.violation(sig, desc, {'case': c, 'facts': f, 'e2e': e2e})
             if c['mode'] != 'fault':
                 confirmed.setdefault('%s/%s' % (c['site'], c['kind']), case_label(c))
@@ -754,7 +788,7 @@ def run(chk):
                             % (case_label(c), DRIFTS.get(drift, drift), c['site'], c['kind'], f['pipe'], f['target'],
                                [(l[0], l[1]) for l in f['leaves']]), None)
     chk.extra['suspects_confirmed_by_real_input'] = confirmed
-    chk.constants = {'ErrorFlow': {'sites': 65, 'kinds': 31, 'SSLVerify': [False, True]},
+    chk.constants = {'ErrorFlow': {'sites': 64, 'kinds': 31, 'SSLVerify': [False, True]},
                      'DocLen': 2 if quick else 3}
     chk.rule = ('one case = one run of the real code: (a) (site, kind) fault injected into a complete crawl, '
                 '(b) malformation class x segmentation / cut offset served by a hostile HTTP or FTP server to a '
